@@ -1,6 +1,6 @@
 (* C04 — NTP timestamp conversion is exact to 1 ns within +-2^31 s, across eras.
    Statements only; proofs live in Proofs/NtpTimeProofs.v. *)
-From ST Require Import Base.Ints Model.NtpTime Proofs.NtpTimeProofs.
+From ST Require Import Base.Ints Model.NtpTime Proofs.NtpTimeProofs Proofs.NtpTimeDecodeProofs.
 Open Scope Z_scope.
 
 (* for every reference time from 1970 on (Unix seconds below 2^60) and every time
@@ -57,3 +57,50 @@ Theorem C04_roundtrip_ns_window_refuted :
   in_window_ns t tref /\ time_of_time64 (time64_of_time t) tref = t - 4294967296 * 1000000000.
 Proof. cbv zeta. split; [unfold in_window_ns, mk_time, nanos_per_sec; lia|vm_compute; reflexivity]. Qed.
 Print Assumptions C04_roundtrip_ns_window_refuted.
+
+(* The decoding direction, for all 2^32 seconds fields and all 2^32 fractions: whatever the
+   timestamp, the decoded time lies in the reference's window, encodes back to the same seconds
+   field, and to a fraction at most 5 units (1.2 ns) below the original and never above it. *)
+Theorem C04_decode_encode : forall s f tref,
+  0 <= time_sec tref < 2^60 -> 0 <= s < 4294967296 -> 0 <= f < 4294967296 ->
+  let t := time_of_time64 {| t64_sec := s; t64_frac := f |} tref in
+  in_window t tref /\ t64_sec (time64_of_time t) = s /\
+  f - 5 <= t64_frac (time64_of_time t) <= f.
+Proof. exact decode_encode. Qed.
+Print Assumptions C04_decode_encode.
+
+(* the decoded nanosecond is the fraction truncated to whole nanoseconds *)
+Theorem C04_decode_nsec : forall s f tref, 0 <= f < 4294967296 ->
+  let t := time_of_time64 {| t64_sec := s; t64_frac := f |} tref in
+  time_nsec t * 4294967296 <= f * 1000000000 < (time_nsec t + 1) * 4294967296.
+Proof. exact decode_nsec. Qed.
+Print Assumptions C04_decode_nsec.
+
+(* the oracle evaluated on the implementation's decoded times (case kind ntp.from64) accepts the model *)
+Theorem C04_decode_meets_oracle : forall s f tref, 0 <= s < 4294967296 -> 0 <= f < 4294967296 ->
+  C04_decode_ok s f tref (time_of_time64 {| t64_sec := s; t64_frac := f |} tref) = true.
+Proof. exact decode_meets_oracle. Qed.
+Print Assumptions C04_decode_meets_oracle.
+
+(* order is reflected as well as preserved, and strictly preserved from 2 ns apart *)
+Theorem C04_order_reflected : forall t1 t2 tref,
+  0 <= time_sec tref < 2^60 -> in_window t1 tref -> in_window t2 tref ->
+  time_of_time64 (time64_of_time t1) tref < time_of_time64 (time64_of_time t2) tref -> t1 < t2.
+Proof. exact order_reflected. Qed.
+Print Assumptions C04_order_reflected.
+
+Theorem C04_order_strict : forall t1 t2 tref,
+  0 <= time_sec tref < 2^60 -> in_window t1 tref -> in_window t2 tref -> t1 + 2 <= t2 ->
+  time_of_time64 (time64_of_time t1) tref < time_of_time64 (time64_of_time t2) tref.
+Proof. exact order_strict. Qed.
+Print Assumptions C04_order_strict.
+
+(* the hypotheses are met across the era boundary of February 2036 *)
+Theorem C04_era_crossing_witness :
+  let tref := mk_time 2085978500 5 in
+  let t := mk_time 2085978490 123456789 in
+  time_sec tref = 2085978500 /\ time_sec t - time_sec tref = -10 /\
+  t64_sec (time64_of_time t) = 4294967290 /\
+  time_of_time64 (time64_of_time t) tref = t - 1.
+Proof. exact era_crossing. Qed.
+Print Assumptions C04_era_crossing_witness.
